@@ -363,9 +363,11 @@ class SSETransport(Transport):
                 f"Received SSE message: {message_data.get('method', 'response')} (id: {message_data.get('id')})"
             )
 
-            # Check if this is a response to a pending request
+            # Check if this is a response to a pending request. The server numbers
+            # its own requests independently, so a message with a method is never
+            # the answer to ours, whatever its id
             message_id = message_data.get("id")
-            if message_id is not None:
+            if message_id is not None and "method" not in message_data:
                 message_id = str(message_id)
                 async with self._message_lock:
                     if message_id in self._pending_requests:
